@@ -108,6 +108,13 @@ CHECKS['C18'] = dict(technique='runtime monitoring: offline checker of the debug
                   'bound-to register against the register actually encoded in a marker instruction that uses it (ANM, EoSD..StB ECL, nested blocks, times loops), and const values against the C11 evaluator.',
              note='MSG files with unreferenced scripts are skipped (not delimitable in the binary). Only finite const values judged.',
              design='3/C18')
+CHECKS['C20'] = dict(technique='runtime monitoring: reference-model oracle (numbering rule written from the documentation) compared with ids/indices/offsets in the written file read by an independent layout parser',
+             text='Exploration. Generated ANM/MSG/old-ECL/STD layouts (1..6 things in any order, explicit/decreasing/duplicate/const-expression ids, duplicate sprite names across entries, sparse MSG tables with defaults and '
+                  'shared scripts, use before definition) are compiled; the expected id of every name is computed from the documented rule and compared with the tables of the written file and with the argument '
+                  'written by every instruction that uses the name (sprite/script arguments, timeline sub arguments in the arg0 field or blob, call instructions, MSG table offsets via marker instructions, '
+                  'STD instance object indices). Conflicting sprite ids and unknown names must be errors.',
+             note='Modern (th10+) ECL sub names are strings, not numbers, and are outside this property. MSG scripts are located through marker instructions, so every script is referenced at least once.',
+             design='3/C20')
 WIP = {}  # property -> reason (not claimed)
 
 def main():
